@@ -2211,8 +2211,10 @@ def lex_tokens(line):
         # process backslash escapes without mangling non-ASCII characters
         try:
             value = value.encode('latin-1', 'backslashreplace').decode('unicode_escape')
-        except UnicodeDecodeError:
-            raise AssemblerError('invalid escape sequence in string: "{}"'.format(value), line)
+            # an escape may also name a lone surrogate, which has no UTF-8 encoding
+            value.encode('utf-8')
+        except UnicodeError:
+            raise AssemblerError('invalid escape sequence in string: "{}"'.format(match.group(1)), line)
         tokens = ['string', value]
         return LineTokens(line, tokens)
 
